@@ -27,6 +27,15 @@ type updownLine struct {
 	ambCount   int   // total number of sites that are not ATGC
 }
 
+// csvField quotes a record ID for the CSV output when it contains a comma or a double quote (RFC 4180),
+// so that the file can be read back by updown topranking
+func csvField(s string) string {
+	if !strings.ContainsAny(s, ",\"\r\n") {
+		return s
+	}
+	return "\"" + strings.ReplaceAll(s, "\"", "\"\"") + "\""
+}
+
 // writeOutput writes the output to stdout or a file as it arrives.
 // It uses a map to write things in the same order as they are in the input file.
 func writeOutput(w io.Writer, cudLs chan updownLine, cErr chan error, cWriteDone chan bool) {
@@ -59,7 +68,7 @@ func writeOutput(w io.Writer, cudLs chan updownLine, cErr chan error, cWriteDone
 						ambstrings = append(ambstrings, strconv.Itoa(udLine.ambs[i])+"-"+strconv.Itoa(udLine.ambs[i+1]))
 					}
 				}
-				_, err := w.Write([]byte(udLine.id + "," + strings.Join(udLine.snps, "|") + "," + strings.Join(ambstrings, "|") + "," + strconv.Itoa(udLine.snpCount) + "," + strconv.Itoa(udLine.ambCount) + "\n"))
+				_, err := w.Write([]byte(csvField(udLine.id) + "," + strings.Join(udLine.snps, "|") + "," + strings.Join(ambstrings, "|") + "," + strconv.Itoa(udLine.snpCount) + "," + strconv.Itoa(udLine.ambCount) + "\n"))
 				if err != nil {
 					cErr <- err
 					return
